@@ -107,26 +107,30 @@ NOFAC = dict(facilities=False, components=False)
 FULL = dict()
 
 PLANS = {
-    "C01": dict(cases=step_cases(["deps", "abs"], NOFAC),
+    "C01": dict(cases=step_cases(["deps", "abs", "deps2"], NOFAC),
                 l1=l1(dict(family="rand", rand=NOFAC, invariants=['Inv_C01'], properties=['Prop_C01'], tier=1),
                       dict(family="deps", invariants=["Inv_C01"], properties=["Prop_C01"]),
-                      dict(family="abs", invariants=["Inv_C01"], properties=["Prop_C01"]))),
-    "C02": dict(cases=both(unit2_cases(), step_cases(["deps", "alloc", "abs"], FULL)),
-                l1=l1(dict(family="rand", rand=FLAT, invariants=['Inv_C02'], properties=['Prop_C02'], tier=1),
+                      dict(family="abs", invariants=["Inv_C01"], properties=["Prop_C01"]),
+                      dict(family="deps2", invariants=["Inv_C01"], properties=["Prop_C01"]))),
+    "C02": dict(cases=both(unit2_cases(), step_cases(["deps", "alloc", "abs", "pairs"], FULL)),
+                l1=l1(dict(family="pairs", invariants=["Inv_C02"], properties=["Prop_C02"]),
+                      dict(family="rand", rand=FLAT, invariants=['Inv_C02'], properties=['Prop_C02'], tier=1),
                       dict(family="deps", invariants=["Inv_C02"], properties=["Prop_C02"]),
                       dict(family="alloc", invariants=["Inv_C02"], properties=["Prop_C02"]))),
-    "C03": dict(cases=both(unit2_cases(), step_cases(["alloc", "place", "conveyor"], FULL)),
-                l1=l1(dict(family="rand", rand=FLAT, invariants=['Inv_C03'], properties=['Prop_C03'], tier=1),
+    "C03": dict(cases=both(unit2_cases(), step_cases(["alloc", "place", "conveyor", "pairs"], FULL)),
+                l1=l1(dict(family="pairs", invariants=["Inv_C03"], properties=["Prop_C03"]),
+                      dict(family="rand", rand=FLAT, invariants=['Inv_C03'], properties=['Prop_C03'], tier=1),
                       dict(family="alloc", invariants=["Inv_C03"], properties=["Prop_C03"]),
                       dict(family="place", invariants=["Inv_C03"], properties=["Prop_C03"]))),
-    "C04": dict(cases=step_cases(["alloc", "place", "conveyor"], FULL),
-                l1=l1(dict(family="rand", rand=FLAT, invariants=['Inv_C04'], properties=['Prop_C04'], tier=1),
+    "C04": dict(cases=step_cases(["alloc", "place", "conveyor", "pairs"], FULL),
+                l1=l1(dict(family="pairs", invariants=["Inv_C04"], properties=["Prop_C04"]),
+                      dict(family="rand", rand=FLAT, invariants=['Inv_C04'], properties=['Prop_C04'], tier=1),
                       dict(family="alloc", invariants=["Inv_C04"], properties=["Prop_C04"]),
                       dict(family="place", invariants=["Inv_C04"], properties=["Prop_C04"]))),
     "C05": dict(cases=step_cases(["deps", "abs", "place"], FULL),
                 l1=l1(dict(family="deps", invariants=["Inv_C05"], properties=["Live_C05"]),
                       dict(family="abs", invariants=["Inv_C05"]))),
-    "C06": dict(cases=step_cases(["deps", "alloc"], FULL),
+    "C06": dict(cases=step_cases(["deps", "alloc", "pairs", "deps2"], FULL),
                 l1=l1(dict(family="rand", rand=FLAT, invariants=['Inv_C06'], properties=['Prop_C06'], tier=1),
                       dict(family="deps", invariants=["Inv_C06"], properties=["Prop_C06"]),
                       dict(family="alloc", invariants=["Inv_C06"], properties=["Prop_C06"]))),
@@ -134,9 +138,9 @@ PLANS = {
                 l1=l1(dict(family="rand", rand=FLAT, invariants=['Inv_C07'], properties=[], tier=1),
                       dict(family="alloc", invariants=["Inv_C07"]),
                       dict(family="abs", invariants=["Inv_C07"]))),
-    "C08": dict(cases=step_cases(["deps", "place"], FULL),
+    "C08": dict(cases=step_cases(["deps", "place", "dag"], FULL),
                 l1=l1(dict(family="abs", invariants=["Inv_C08"]))),
-    "C10": dict(cases=step_cases(["abs"], FULL),
+    "C10": dict(cases=step_cases(["abs", "pairs"], FULL),
                 l1=l1(dict(family="abs", invariants=["Inv_C10", "Inv_C10H"], properties=["Prop_C10"]))),
     "C11": dict(cases=both(sort_cases(), step_cases(["alloc"], FULL, nq=400, rq=300)),
                 l1=l1(dict(family="alloc", properties=["Prop_C11"]))),
@@ -145,7 +149,7 @@ PLANS = {
     "C13": dict(cases=step_cases(["place", "conveyor"], FULL),
                 l1=l1(dict(family="placeflat", invariants=["Inv_C13"], properties=["Prop_C13"]),
                       dict(family="conveyor", invariants=["Inv_C13"], properties=["Prop_C13"]))),
-    "C14": dict(cases=step_cases(["place", "deps"], FULL),
+    "C14": dict(cases=step_cases(["place", "deps", "dag"], FULL),
                 l1=l1(dict(family="rand", rand=FLAT, invariants=['Inv_C14'], properties=['Prop_C14'], tier=1),
                       dict(family="place", invariants=["Inv_C14"], properties=["Prop_C14"]))),
 }
@@ -384,7 +388,7 @@ def c18_cases(tier, seed):
 def c16_cases(tier, seed):
     rng = _random.Random(seed + 16)
     out = []
-    pool = _pool(tier, seed, ["deps", "placeflat"], 40, 400, dict(), 80, 800) + _with_subtask(tier, seed, 20)
+    pool = _pool(tier, seed, ["deps", "placeflat", "dag"], 40, 400, dict(), 80, 800) + _with_subtask(tier, seed, 20)
     # numeric edge values: 0 / 0.0 / -1 for every numeric constructor parameter of the model
     for cfg in _rand(tier, seed + 5, 40, 400, "E"):
         cfg = json.loads(json.dumps(cfg))
@@ -431,10 +435,13 @@ def c10_hist_cases(tier, seed):
             continue
         if cfg["opts"]["rule"] != "TSLACK":
             continue
-        L = cfg["opts"]["absL"] or sorted(set(rng.sample(range(0, 8), rng.randint(1, 3))))
-        ops = [{"op": "simulate", "opts": {"absL": []}, "light": True}, {"op": "rebuild"},
-               {"op": "simulate", "opts": {"absL": L}, "light": True},
-               _cmp({"op": "remove_absence"}, 1, "C10", "lg-success")]
+        Ls = [cfg["opts"]["absL"] or sorted(set(rng.sample(range(0, 8), rng.randint(1, 3))))]
+        # runs of consecutive absence steps early, in the middle and at / beyond the end of the run
+        Ls += [rng.choice([[0, 1, 2], [1, 2, 3], [2, 3, 4], [3, 4, 5], [4, 5, 6], [1, 3, 5], [5, 6, 7], [2, 4, 30]])]
+        ops = [{"op": "simulate", "opts": {"absL": []}, "light": True}]
+        for L in Ls:
+            ops += [{"op": "rebuild"}, {"op": "simulate", "opts": {"absL": L}, "light": True},
+                    _cmp({"op": "remove_absence"}, 1, "C10", "lg-success")]
         out.append(_hist(cfg, "c10", ops))
     return out
 
@@ -489,6 +496,44 @@ def c20_cases(tier, seed):
             spec["childSimulated"] = False            # child never simulated
         out.append(spec)
     return out
+
+
+def c01_edit_cases(tier, seed):
+    """The workflow is edited between two runs (a dependency is added): the second run has to
+    respect the new link."""
+    rng = _random.Random(seed + 1)
+    out = []
+    for cfg in _pool(tier, seed, ["deps"], 150, 1500, dict(components=False, facilities=False), 60, 600, prefix="A"):
+        n = len(cfg["tasks"])
+        have = {(p, s) for p, s, _ in cfg["deps"]} | {(s, p) for p, s, _ in cfg["deps"]}
+        # a new edge that keeps the graph acyclic: from a task with no predecessors to one that is
+        # not among its ancestors - simplest: orient along a topological order of the existing graph
+        order = _topo(n, cfg["deps"])
+        cands = [(order[i], order[j]) for i in range(n) for j in range(i + 1, n) if (order[i], order[j]) not in have]
+        if not cands:
+            continue
+        p, s = rng.choice(cands)
+        k = rng.choice(["FS", "SS", "FF", "SF"])
+        ops = [{"op": "simulate", "light": True}, {"op": "add_dep", "dep": [p, s, k]}, {"op": "simulate"},
+               {"op": "rebuild"}, _cmp({"op": "simulate", "light": True}, 3, "C09", "lg")]
+        out.append(_hist(cfg, "c01edit", ops))
+    return out
+
+
+def _topo(n, deps):
+    preds = {i: set() for i in range(1, n + 1)}
+    for p, s, _ in deps:
+        preds[s].add(p)
+    order, done = [], set()
+    while len(order) < n:
+        for i in range(1, n + 1):
+            if i not in done and preds[i] <= done:
+                order.append(i)
+                done.add(i)
+                break
+        else:
+            break
+    return order + [i for i in range(1, n + 1) if i not in done]
 
 
 def c05_maxtime_cases(tier, seed):
@@ -548,6 +593,7 @@ def tlc_hist_cases(family, base_fams, nbase_q=3, nbase_t=12):
 
 
 PLANS["C05"]["cases"] = both(PLANS["C05"]["cases"], c05_maxtime_cases)
+PLANS["C01"]["cases"] = both(PLANS["C01"]["cases"], c01_edit_cases)
 PLANS["C08"]["cases"] = both(PLANS["C08"]["cases"], c08_hist_cases, unit2_cases(),
                                tlc_hist_cases("histC08", ["deps", "placeflat"], 1, 6))
 PLANS["C18"]["cases"] = both(PLANS["C18"]["cases"], tlc_hist_cases("histC18", ["abs", "placeflat"], 1, 6))
